@@ -24,8 +24,8 @@ from harness.c10_stack import setup_logging_once
 from harness.common import Machinery, Report
 from harness.x05_mem import addr_bytes, run_case, sweep_of
 
-MC_QUICK = ["c", "aq", "aq2", "bq"]
-MC_THOROUGH = ["c", "a", "b"]
+MC_QUICK = ["c", "crash", "aq", "aq2", "bq"]
+MC_THOROUGH = ["c", "crash", "a", "b"]
 MC_COV = "cov"
 NEG = {
     "devTimeout": {"M3_Reported", "M5_Sweep"},
@@ -247,6 +247,8 @@ def run(tier: str, seed: int) -> Report:
         "session read; a silent fall-back of the ECU cannot be noticed without check_session and is accepted",
         "result records are recognised by /address <number>/ and the word 'timeout'; records that are not understood "
         "make the check fail as machinery (exit 2), never as a verdict",
+        "an ECU that crashes on a memory access (no answer, connection closed, default session afterwards) is only "
+        "generated with client retries >= 1 (the option help ties reconnects to the retries)",
         "busyRepeatRequest / responsePending answers (resolved by the UDS client, C04), late answers to a timed-out "
         "probe and illegal positive responses are not generated (sources silent)",
         "no power supply (power_cycle() returns False); ECUReset answered by the model (positive, or refused -> "
